@@ -98,3 +98,22 @@ static void run_9006(const ShapeDesc& sd, RunCtl& ctl) {
 static const ShapeDesc shape_9006 = {9006, "unifex::dematerialize(unifex::materialize(e.leafv(0)))", nodes_9006, 2, 0, 1, 1, &run_9006};
 static Reg reg_9006(&shape_9006);
 }  // namespace
+namespace {
+using namespace ef;
+// P9007: retry_when re-connects (as an lvalue) a source that contains when_all_range: the element senders must survive the first connect (fixed)
+static const NodeDesc nodes_9007[] = {
+  {K_RETRY_WHEN, 1, 0, 2, {1, 4, 0, 0, 0}, 'V'},
+  {K_WAR, 2, 0, 2, {2, 3, 0, 0, 0}, 'V'},
+  {K_LEAF, 3, 0, 0, {0, 0, 0, 0, 0}, 'V'},
+  {K_LEAF, 4, 1, 0, {0, 0, 0, 0, 0}, 'V'},
+  {K_LEAFV, 5, 2, 0, {0, 0, 0, 0, 0}, 'E'}
+};
+static void run_9007(const ShapeDesc& sd, RunCtl& ctl) {
+  run_shape_impl<Cfg<0>>(sd, ctl, [](auto e) {
+    using E = decltype(e);
+    return unifex::retry_when(unifex::then(unifex::when_all_range(e.vec(e.leaf(0), e.leaf(1))), e.warfn(2)), [=](auto&& err) mutable { e.bind_err(1, err); E::call(1); return e.leafv(2); });
+  });
+}
+static const ShapeDesc shape_9007 = {9007, "unifex::retry_when(unifex::then(unifex::when_all_range(e.vec(e.leaf(0), e.leaf(1))), e.warfn(2)), [=](auto&& err) { ...; return e.leafv(2); })", nodes_9007, 5, 0, 3, 0, &run_9007};
+static Reg reg_9007(&shape_9007);
+}  // namespace
